@@ -55,7 +55,7 @@ def tx2(ctx):
             R.require(ok, "%s@%s" % (target.rsplit("::", 1)[-1], root), c.where(), "%s in %s: %s" % (target.rsplit("::", 1)[-1], c.body.id, why),
                       fail_msg="%s in %s is not dominated by a successful commit (%s): memory would advertise versions whose rows may never be durable"
                                % (target.rsplit("::", 1)[-1], c.body.id, why))
-    R.floor(n, 5, "publish-sites", "commit_snapshot/insert_partial call sites outside from_conn")
+    R.floor(n, 3, "publish-sites", "commit_snapshot/insert_partial call sites outside from_conn")
 
 
 # ------------------------------------------------------------------------------------------------ tx3
@@ -129,7 +129,7 @@ def fields(ctx):
                 R.require(rid in allowed, "%s.%s@%s" % (adt.rsplit("::", 1)[-1], field, rid), where[0],
                           "%s.%s mutated in %s" % (adt.rsplit("::", 1)[-1], field, rid.rsplit("::", 1)[-1]),
                           fail_msg="%s.%s is mutated outside its owner methods: in %s at %s (bypasses snapshot/commit discipline)" % (adt.rsplit("::", 1)[-1], field, rid, where[:2]))
-    R.floor(total, 10, "mutation-sites", "(type.field, function) mutation pairs")
+    R.floor(total, 6, "mutation-sites", "(type.field, function) mutation pairs")
     # whole-value replacement of a BookedVersions behind a guard: only from from_conn / new
     n = 0
     for b in F.bodies.values():
@@ -353,7 +353,7 @@ def seqbase(ctx, bodies=None, R=None):
             consts = {o.const.get("v") for o in lo if o.kind == "const" and o.const and "v" in o.const}
             if len(lo) == 1 and len(consts) == 1:
                 sites.append((b, c, consts.pop()))
-    if bodies is None and not R.floor(len(sites), 5, "sites", "constant-based `k..=last_seq` ranges"):
+    if bodies is None and not R.floor(len(sites), 3, "sites", "constant-based `k..=last_seq` ranges"):
         return sites
     # reference: the constant Changeset::is_complete compares seqs.start() with
     ref = 0
